@@ -269,6 +269,10 @@ def stepC20 (d : DSt) (op : String) (got : String) : StepResult DSt :=
         if w == "w1" then ["arrival-lp"] else if w == "w2" then ["arrival-lp-token"] else ["arrival-bare"]
       match args with
       | ["express", label, nameT, cbpT, lifeT] => doExpress label nameT cbpT lifeT "ok" []
+      | ["data2", _na, _va, _nb, _vb, _w] =>
+        -- one frame holding two Data packets is no arrival of either: nothing may be resolved by it
+        let (sp2, f2) := if isCrash got then (sp1, []) else specCb sp1 gotCb none none
+        mk { d1 with sp := sp2 } "ok" [] f2 ["data-two-in-one-frame"]
       | ["mgmtf", _nameT] =>
         -- Engine.RegisterRoute (ExecMgmtCmd) while the face cannot send: the call reports the error at once. The
         -- command Interest the engine expressed for itself stays pending for its lifetime and then times out inside
